@@ -5,6 +5,7 @@ package interp
 import (
 	"fmt"
 	"go/types"
+	"os"
 	"sort"
 	"strings"
 
@@ -117,7 +118,7 @@ func newPathCtx(s *smt.Solver, prefix []Decision) *pathCtx {
 	return &pathCtx{
 		b: smt.NewBuilder(), s: s, prefix: prefix,
 		varCount: map[string]int{}, reached: map[string]bool{}, asserted: map[string]bool{},
-		maxDecisions: 4000, maxConc: 300, incTimeoutMs: 4000,
+		maxDecisions: 4000, maxConc: 300, incTimeoutMs: 2000,
 	}
 }
 
@@ -192,6 +193,11 @@ func (c *pathCtx) feasible(t *smt.Term) (smt.Result, map[string]uint64) {
 	c.s.SetTimeout(c.s.TimeoutMs)
 	if r == smt.Unknown {
 		// retry from a fresh state with the full timeout
+		if debugUnknown {
+			fmt.Fprintf(os.Stderr, "incremental unknown (decisions so far %d): term size %d\n", len(c.taken), t.ID)
+			dumpN++
+			os.WriteFile(fmt.Sprintf("/tmp/unk_%d.smt2", dumpN), []byte(smt.DumpQuery(c.pcTerms, t)), 0644)
+		}
 		return c.oneShot(t)
 	}
 	return r, m
@@ -236,7 +242,7 @@ func (c *pathCtx) branch(cond *smt.Term, tag string) bool {
 		} else {
 			c.addPC(c.b.Not(cond))
 		}
-		c.taken = append(c.taken, Decision{Kind: 'b', Alt: d.Alt})
+		c.taken = append(c.taken, Decision{Kind: 'b', Alt: d.Alt, Tag: tag})
 		return side
 	}
 	if c.replayModel != nil {
@@ -303,7 +309,7 @@ func (c *pathCtx) branch(cond *smt.Term, tag string) bool {
 	if models[side] != nil {
 		c.model, c.modelValid = models[side], true
 	}
-	c.taken = append(c.taken, Decision{Kind: 'b', Alt: side})
+	c.taken = append(c.taken, Decision{Kind: 'b', Alt: side, Tag: tag})
 	return side == 1
 }
 
@@ -531,3 +537,7 @@ func sortedKeys(m map[string]bool) []string {
 	sort.Strings(ks)
 	return ks
 }
+
+var debugUnknown = os.Getenv("GOSYM_DEBUG_UNKNOWN") != ""
+
+var dumpN int
